@@ -8,7 +8,11 @@
 // triggers: simulated process death immediately before one of the three file
 // operations of WriteFileAtomic (or after the last one, before the signature
 // is handed out), or an injected error of one of them, and optionally a kill
-// of the idle process after the request.  After a death the in-memory signer is
+// of the idle process after the request; or — torn-file family — a crash of the
+// host after the request has completed that leaves the signer file itself
+// damaged (truncated to 0 bytes / 1 byte / half / all but the last byte, first
+// or last byte flipped: every pattern makes the file unparsable) while the
+// .bak / .new leftovers are what the code left, followed by a restart.  After a death the in-memory signer is
 // thrown away and types.LoadPrivValidator (what gemmill/angine.go does at node
 // start) builds the next one from the files that are on disk.
 //
@@ -17,12 +21,24 @@
 // (2) no release below an earlier released (height, round, step) unless it is
 // the identical message again; (3) at the moment a signature leaves the signer
 // the file on disk forbids contradicting it; (4) a restart after any crash
-// point loads without error or panic.
+// point loads without error or panic.  With a torn signer file refusing to
+// start is the safe answer and ends the history; if the node does start, (1)
+// and (2) keep judging what it signs.
+//
+// Part (b), every interleaving of concurrent callers of one signer object, is
+// the SCHED exploration props/c03sched (a separate binary, built with the
+// import-rewriting overlay by prebuild.sh); runSchedPart runs it and merges
+// its evidence and violations.
 package main
 
 import (
 	"bytes"
+	"encoding/json"
 	"fmt"
+	"io/ioutil"
+	"os"
+	"os/exec"
+	"path/filepath"
 	"strings"
 
 	"verif/core"
@@ -110,8 +126,9 @@ func initRequests() {
 // ---------------------------------------------------------------- cases
 
 // step: Fault ∈ none | crash@bak | crash@new | crash@rename | crash@done |
-// fail@bak | fail@new | fail@rename ; Restart = the idle process is killed and
-// restarted after the request (implied by every crash fault).
+// fail@bak | fail@new | fail@rename | tear@<pattern> ; Restart = the idle
+// process is killed and restarted after the request (implied by every crash
+// and tear fault).
 type step struct {
 	Req     int    `json:"req"`
 	Name    string `json:"request,omitempty"` // informational
@@ -159,7 +176,47 @@ func histLess(a, b []step) bool {
 	return len(a) < len(b)
 }
 
-var faultOrder = map[string]int{"none": 0, "crash@bak": 1, "crash@new": 2, "crash@rename": 3, "crash@done": 4, "fail@bak": 5, "fail@new": 6, "fail@rename": 7}
+var faultOrder = map[string]int{"none": 0, "crash@bak": 1, "crash@new": 2, "crash@rename": 3, "crash@done": 4, "fail@bak": 5, "fail@new": 6, "fail@rename": 7,
+	"tear@empty": 8, "tear@1byte": 9, "tear@half": 10, "tear@all-but-last": 11, "tear@flip-first": 12, "tear@flip-last": 13}
+
+// tearPatterns: how the signer file is damaged by a tear fault.  Every pattern
+// leaves a file that is not a JSON document (a flip inside a value that keeps
+// the file parseable is silent corruption the format cannot detect; it is
+// outside the property and not generated).
+var tearPatterns = []string{"empty", "1byte", "half", "all-but-last", "flip-first", "flip-last"}
+
+// torn applies a pattern to the content of the signer file.
+func torn(b []byte, pattern string) []byte {
+	n := len(b)
+	switch pattern {
+	case "empty":
+		return []byte{}
+	case "1byte":
+		if n > 1 {
+			n = 1
+		}
+		return append([]byte{}, b[:n]...)
+	case "half":
+		return append([]byte{}, b[:n/2]...)
+	case "all-but-last":
+		if n > 0 {
+			n--
+		}
+		return append([]byte{}, b[:n]...)
+	case "flip-first", "flip-last":
+		o := append([]byte{}, b...)
+		if n > 0 {
+			i := 0
+			if pattern == "flip-last" {
+				i = n - 1
+			}
+			o[i] ^= 0xFF
+		}
+		return o
+	}
+	core.Fatal("unknown tear pattern %q", pattern)
+	return nil
+}
 
 func faultPoint(f string) string {
 	if i := strings.IndexByte(f, '@'); i >= 0 {
@@ -168,7 +225,7 @@ func faultPoint(f string) string {
 	return ""
 }
 
-// allVariants: every (fault, restart) combination of one request (12).
+// allVariants: every (fault, restart) combination of one request (12 + one per tear pattern).
 func allVariants(req int) []step {
 	var out []step
 	for _, f := range []string{"none", "fail@bak", "fail@new", "fail@rename"} {
@@ -176,6 +233,9 @@ func allVariants(req int) []step {
 	}
 	for _, f := range []string{"crash@bak", "crash@new", "crash@rename", "crash@done"} {
 		out = append(out, step{Req: req, Fault: f})
+	}
+	for _, p := range tearPatterns {
+		out = append(out, step{Req: req, Fault: "tear@" + p})
 	}
 	return out
 }
@@ -190,6 +250,7 @@ func allVariants(req int) []step {
 type worker struct {
 	id        int
 	dir, path string
+	probe     string // a file alone in a directory of its own: contents are summarised by loading them from here
 	armCrash  string
 	armFail   string
 	points    []string
@@ -248,4 +309,176 @@ func onFail(site string) error {
 		return verifhook.ErrInjected
 	}
 	return nil
+}
+
+// ---------------------------------------------------------------- part (b): SCHED subprocess
+
+type schedResult struct {
+	out  []byte
+	code int
+	err  error
+	sub  string
+	bin  string
+}
+
+var schedDone chan *schedResult
+
+// startSchedPart starts part (b), the controlled-scheduler exploration of
+// concurrent callers of one signer object (props/c03sched, a separate binary
+// because it is built with the import-rewriting overlay), in a private root.
+// It runs next to part (a); joinSched merges its evidence and violations.
+func startSchedPart(run *core.Run) {
+	if only := os.Getenv("VERIF_C03_ONLY"); only != "" && only != "sched" {
+		return
+	}
+	bin := schedBin()
+	if alt := os.Getenv("VERIF_C03SCHED_BIN"); alt != "" {
+		bin = alt
+	}
+	if _, err := os.Stat(bin); err != nil {
+		core.Fatal("the SCHED binary %s is missing (props/c03/prebuild.sh builds it)", bin)
+	}
+	sub := filepath.Join(filepath.Dir(run.WorkDir()), "schedroot")
+	os.RemoveAll(sub)
+	os.MkdirAll(sub, 0755)
+	if b, err := ioutil.ReadFile(filepath.Join(core.Root, "known_findings.txt")); err == nil {
+		ioutil.WriteFile(filepath.Join(sub, "known_findings.txt"), b, 0644)
+	}
+	cmd := exec.Command(bin, run.Tier)
+	cmd.Env = append(os.Environ(), "VERIF_ROOT="+sub, "VERIF_TIER="+run.Tier, "C03B_RACE_BIN="+filepath.Join(filepath.Dir(bin), "c03race"))
+	schedDone = make(chan *schedResult, 1)
+	go func() {
+		r := &schedResult{sub: sub, bin: bin}
+		r.out, r.err = cmd.CombinedOutput()
+		if ee, ok := r.err.(*exec.ExitError); ok {
+			r.code, r.err = ee.ExitCode(), nil
+		}
+		schedDone <- r
+	}()
+}
+
+// joinSched waits for part (b) and merges it into this run.  Returns the
+// assumptions of that part.
+func joinSched(run *core.Run, cov core.Coverage) []string {
+	if schedDone == nil {
+		return nil
+	}
+	r := <-schedDone
+	defer os.RemoveAll(r.sub)
+	if r.err != nil {
+		core.Fatal("cannot run the SCHED part (%s): %v", r.bin, r.err)
+	}
+	if r.code != 0 && r.code != 1 {
+		tail := string(r.out)
+		if len(tail) > 3000 {
+			tail = tail[len(tail)-3000:]
+		}
+		core.Fatal("SCHED part failed with exit %d:\n%s", r.code, tail)
+	}
+	var ev struct {
+		Coverage    map[string]interface{} `json:"coverage"`
+		Assumptions []string               `json:"assumptions"`
+	}
+	if b, err := ioutil.ReadFile(filepath.Join(r.sub, "evidence", "C03.json")); err == nil {
+		json.Unmarshal(b, &ev)
+	}
+	if ev.Coverage == nil {
+		core.Fatal("SCHED part left no evidence (exit %d)", r.code)
+	}
+	cov["sched"] = ev.Coverage
+	for _, k := range []string{"states", "transitions", "traces_validated_against_impl", "evaluations"} {
+		a, ok1 := cov[k].(int)
+		b, ok2 := ev.Coverage[k].(float64)
+		if ok1 && ok2 {
+			cov[k+"_part_a"] = a
+			cov[k] = a + int(b)
+		}
+	}
+	if ex, ok := ev.Coverage["exhaustive"].(bool); ok && !ex {
+		cov["sched_exhaustive"] = false
+		cov["exhaustive"] = false
+		cov["cap"] = ev.Coverage["cap"]
+	}
+	for _, l := range strings.Split(string(r.out), "\n") {
+		if strings.HasPrefix(l, "KNOWN-FINDING:") {
+			fmt.Println(l)
+		}
+	}
+	arts, _ := filepath.Glob(filepath.Join(r.sub, "replays", "C03", "*.json"))
+	for _, a := range arts {
+		b, err := ioutil.ReadFile(a)
+		if err != nil {
+			continue
+		}
+		var art struct {
+			Sig    map[string]string `json:"sig"`
+			Case   json.RawMessage   `json:"case"`
+			Detail string            `json:"detail"`
+		}
+		if json.Unmarshal(b, &art) != nil {
+			continue
+		}
+		if art.Sig == nil {
+			art.Sig = map[string]string{}
+		}
+		art.Sig["part"] = "sched"
+		run.Report(art.Sig, map[string]interface{}{"engine": "SCHED", "sched_case": art.Case}, art.Detail)
+	}
+	if r.code == 1 && len(arts) == 0 {
+		core.Fatal("SCHED part reported a violation but left no artefact")
+	}
+	if os.Getenv("VERIF_MUT_ROOT") != "" && os.Getenv("VERIF_C03SCHED_BIN") == "" && os.Getenv("SEED_KEEP") == "" && strings.HasPrefix(filepath.Base(filepath.Dir(r.bin)), "c03sched-mut-") {
+		// single-use build of a seeded run (kept with SEED_KEEP=1 so that its artefacts can be replayed)
+		os.RemoveAll(filepath.Dir(r.bin))
+	}
+	return ev.Assumptions
+}
+
+// replaySched hands a SCHED artefact to the SCHED binary.
+func replaySched(run *core.Run) bool {
+	b, err := ioutil.ReadFile(run.ReplayPath)
+	if err != nil {
+		return false
+	}
+	var art struct {
+		Case struct {
+			Engine    string          `json:"engine"`
+			SchedCase json.RawMessage `json:"sched_case"`
+		} `json:"case"`
+		Sig    map[string]string `json:"sig"`
+		Detail string            `json:"detail"`
+	}
+	if json.Unmarshal(b, &art) != nil || art.Case.Engine != "SCHED" {
+		return false
+	}
+	os.MkdirAll(run.WorkDir(), 0755)
+	tmp := filepath.Join(run.WorkDir(), "sched-replay.json")
+	nb, _ := json.Marshal(map[string]interface{}{"property": "C03", "engine": "SCHED", "sig": art.Sig, "case": art.Case.SchedCase, "detail": art.Detail})
+	ioutil.WriteFile(tmp, nb, 0644)
+	bin := schedBin()
+	cmd := exec.Command(bin, "replay", tmp)
+	cmd.Stdout, cmd.Stderr = os.Stdout, os.Stderr
+	err = cmd.Run()
+	if ee, ok := err.(*exec.ExitError); ok {
+		os.Exit(ee.ExitCode())
+	}
+	os.Exit(0)
+	return true
+}
+
+// schedBin locates the SCHED binary that props/c03/prebuild.sh built: below
+// the .work directory this binary itself lives in (VERIF_ROOT may be a private
+// root), in a directory of its own for seeded runs (VERIF_MUT_ROOT).
+func schedBin() string {
+	work := filepath.Join("/verif", ".work")
+	if self, err := os.Executable(); err == nil {
+		if d := filepath.Dir(filepath.Dir(self)); filepath.Base(d) == ".work" {
+			work = d
+		}
+	}
+	dir := "c03sched"
+	if m := os.Getenv("VERIF_MUT_ROOT"); m != "" {
+		dir += "-mut-" + filepath.Base(m)
+	}
+	return filepath.Join(work, dir, "bin-for-c03")
 }
